@@ -151,7 +151,11 @@ impl<W: 'static, R: 'static, T: 'static> XSequence<W, R, T> {
                     .collect::<Result<Result<Vec<_>, _>, _>>()?);
                 ManagedXValue::new(XValue::StructInstance(items), rt).map(Ok)
             }
-            Self::Slice(seq, start, ..) => to_native!(seq, Self).get(idx + start, ns, rt),
+            Self::Slice(seq, start, ..) => match idx.checked_add(*start) {
+                Some(idx) => to_native!(seq, Self).get(idx, ns, rt),
+                // only a slice of an infinite sequence has indices this large
+                None => Ok(Err(ManagedXError::new("index out of bounds", rt)?)),
+            },
             Self::Count => ManagedXValue::new(XValue::Int(idx.into()), rt).map(Ok),
             Self::Chain {
                 parts,
